@@ -86,6 +86,23 @@ TTML_2 = b"""<?xml version="1.0" encoding="UTF-8"?>
  </div></body>
 </tt>
 """
+# style reference cycles and a self reference; intervals shorter than a millisecond that straddle / do not straddle a rounding boundary
+TTML_3 = b"""<?xml version="1.0" encoding="UTF-8"?>
+<tt xml:lang="en" xmlns="http://www.w3.org/ns/ttml" xmlns:tts="http://www.w3.org/ns/ttml#styling">
+ <head><styling>
+   <style xml:id="c1" style="c2" tts:color="red"/><style xml:id="c2" style="c1" tts:fontStyle="italic"/>
+   <style xml:id="c3" style="c3 c1" tts:fontWeight="bold"/><style xml:id="c4" style="missing c3"/>
+ </styling></head>
+ <body><div>
+  <p begin="1s" end="10.0014s" style="c1">first</p>
+  <p begin="10.0006s" end="12s" style="c4">second</p>
+  <p begin="12.0004s" end="12.0006s" style="c3">flash</p>
+  <p begin="13.00049s" end="13.0005s">tie</p>
+  <p begin="14s" end="14s">empty</p>
+  <p begin="15s" end="14s">backwards</p>
+ </div></body>
+</tt>
+"""
 SRT_1 = b"""1
 00:00:01,000 --> 00:00:02,500
 Hello <b>bold <i>both</i></b> and {u}under{/u}
@@ -135,7 +152,7 @@ SCC_1 = b"""Scenarist_SCC V1.0
 
 def seeds():
   """format -> list of (name, bytes)."""
-  out = {"ttml": [("hand1", TTML_1), ("hand2_ruby", TTML_2)], "srt": [("hand1", SRT_1)], "vtt": [("hand1", VTT_1)], "scc": [("hand1", SCC_1)], "stl": []}
+  out = {"ttml": [("hand1", TTML_1), ("hand2_ruby", TTML_2), ("hand3_cycles_subms", TTML_3)], "srt": [("hand1", SRT_1)], "vtt": [("hand1", VTT_1)], "scc": [("hand1", SCC_1)], "stl": []}
   for f in sorted(glob.glob(RES + "/ttml/*.ttml"))[:4]:
     out["ttml"].append((os.path.basename(f), open(f, "rb").read()))
   for f in sorted(glob.glob(RES + "/scc/*.scc"))[:3]:
